@@ -65,6 +65,15 @@ def callIt : CVal → CVal
   | .callable r => r
   | v => v
 
+/-- what `super().__getattribute__(name)` did: returned a value (an instance attribute, a method, or a property whose
+    getter returned), raised AttributeError (no such attribute — OR a property whose getter raised AttributeError: the
+    code cannot tell them apart), or raised something else (propagates) -/
+inductive OwnOut
+  | value (v : CVal)
+  | attributeError
+  | raises
+deriving Repr, Inhabited
+
 /-- `callable(x)` -/
 def CVal.isCallable : CVal → Bool
   | .callable _ => true
